@@ -55,6 +55,8 @@ Leaf(i) == CASE i = 1 -> F(1, 2)      \* 0.5    tol 0: 0.0
              [] i = 25 -> None
              [] i = 26 -> Str(105)    \* 'ab' : a string of two characters (iterable)
              [] i = 27 -> I(25)
+             [] i = 28 -> [t |-> "iter", v |-> 2, d |-> 1, c |-> <<>>]   \* a one-shot iterator with two float items left
+             [] i = 29 -> [t |-> "cls", v |-> 1, d |-> 1, c |-> <<>>]    \* a class object (int)
              [] OTHER -> I(0)
 Leaves == {Leaf(i) : i \in FloatIds \cup OtherIds}
 
@@ -111,7 +113,7 @@ DeepArg(j, tol) ==
             ELSE [j EXCEPT !.c = [i \in 1..Len(j.c) |-> [j.c[i] EXCEPT !.c = <<DeepArg(j.c[i].c[1], tol)>>]]]
   ELSE IF j.t \in {"list", "tuple", "set", "fset"}  \* isiterable: type(j)(deep_round(*j)[0])
        THEN [j EXCEPT !.c = [i \in 1..Len(j.c) |-> DeepArg(j.c[i], tol)]]
-  ELSE IF j.t \in {"range", "ntuple", "ipnet"}       \* iterable, but type(j)(tuple of elements) raises
+  ELSE IF j.t \in {"range", "ntuple", "ipnet", "iter"}   \* iterable, but type(j)(tuple of elements) raises / an iterator is not consumed
        THEN IF "deep_rebuild_raises" \in Deviations THEN FAIL ELSE j      \* (kept as it is)
   ELSE j
 
